@@ -44,7 +44,15 @@ type plan struct {
 	// related-name documents are sent under the reduced ("large") products
 	relatedNamesReduced   bool
 	namesExec, namesOther []config // thorough products for related-name documents
-	oddAllLarge           bool
+	// server-side dimensions (resolver outcome x error presentation): configurations per
+	// combination; documents above fullOps get every combination only when sideAllLarge,
+	// otherwise a thin slice
+	side, sideLarge []config
+	sideAllLarge    bool
+	// thorough: product for the plain HEAD / OPTIONS / PUT carriers, which no Accept value can
+	// make execute anything (nil = the non-executing products above)
+	inert       []config
+	oddAllLarge bool
 	// histories: configurations per history; whether documents above fullOps also get the
 	// cross-carrier and sibling shapes (they always get "the same request twice")
 	hist               []config
@@ -71,6 +79,8 @@ func makePlan(tier string) plan {
 		return plan{maxOps: 3, fullOps: 3, execSmall: all, execLarge: all, otherSmall: all, otherLarge: all, apq: singles,
 			hist: product(acceptSingles[:4], []string{"nil", "ct-gr"}, orderAlphabet), histAllShapesLarge: true,
 			oddSmall: product(acceptSingles[:4], rhAlphabet, orderAlphabet), oddLarge: product(acceptSingles[:4], rhAlphabet, orderAlphabet), oddAllLarge: true,
+			side: product(acceptSingles[:4], []string{"nil", "ct-gr"}, []string{"default"}), sideAllLarge: true,
+			sideLarge: product([]string{"", mtGR}, []string{"nil"}, []string{"default"}), inert: singles,
 			namesExec: singles, namesOther: product([]string{"", mtGR}, []string{"nil", "custom"}, orderAlphabet)}
 	}
 	// quick: for executing carriers on documents with up to 2 operations, in the default order every
@@ -89,7 +99,8 @@ func makePlan(tier string) plan {
 		apq:        product(acceptSingles[:4], []string{"nil", "ct-gr"}, []string{"default"}),
 		hist:       product([]string{"", mtGR}, []string{"nil"}, []string{"default"}),
 		oddSmall:   product([]string{"", mtGR}, []string{"nil"}, orderAlphabet),
-		oddLarge:   product([]string{""}, []string{"nil"}, orderAlphabet), relatedNamesReduced: true}
+		oddLarge:   product([]string{""}, []string{"nil"}, orderAlphabet), relatedNamesReduced: true,
+		side: product([]string{"", mtGR}, []string{"nil"}, []string{"default"})}
 }
 
 type hit struct {
@@ -131,6 +142,7 @@ func (h *hit) signature(group string) string {
 type tally struct {
 	evals, nontrivial int
 	responses         int // judged responses (a history has several)
+	sideCases         int // cases with a non-default resolver outcome or presentation
 	byOutcome         map[string]int
 	byCarrier         map[string]int
 	byHistory         map[string]int
@@ -155,6 +167,7 @@ func (t *tally) merge(o *tally) {
 	t.evals += o.evals
 	t.nontrivial += o.nontrivial
 	t.responses += o.responses
+	t.sideCases += o.sideCases
 	for k, v := range o.byHistory {
 		t.byHistory[k] += v
 	}
@@ -217,6 +230,8 @@ func casesFor(d DocSpec, p plan, f func(Case)) {
 				cs = p.oddLarge
 			case car.APQ:
 				cs = p.apq
+			case p.inert != nil && !car.Executes && (car.Transport == "Options" || car.Transport == "none"):
+				cs = p.inert
 			case car.Executes && !large:
 				cs = p.execSmall
 			case car.Executes:
@@ -228,6 +243,48 @@ func casesFor(d DocSpec, p plan, f func(Case)) {
 			}
 			for _, g := range cs {
 				f(Case{Doc: d, OpName: on, Carrier: car.Name, Accept: g.accept, RH: g.rh, Order: g.order})
+			}
+		}
+	}
+}
+
+// sideCarriers are the carriers the server-side dimensions are enumerated over.
+var sideCarriers = []string{"GET", "POST", "FORM-json", "FORM-plain", "GRAPHQL", "MULTIPART", "GET-apq"}
+
+// sideCasesFor enumerates, for the standard documents, every (resolver outcome, presentation)
+// combination other than (value, default) over the executing carriers. The reference does not
+// change: status is 200 iff execution started, the media type's client-error status for a
+// document refused before execution, whatever the resolver reports or the presentation does.
+func sideCasesFor(d DocSpec, p plan, f func(Case)) {
+	if d.Names != "" {
+		return
+	}
+	large := len(d.Ops) > p.fullOps
+	for _, on := range opNameChoices(d) {
+		for _, cn := range sideCarriers {
+			if !carrierByName(cn).OpName && on.Has {
+				continue
+			}
+			for _, pr := range presentations {
+				for _, ro := range resolverOutcomes {
+					if pr == "default" && ro == "value" {
+						continue
+					}
+					cfgs := p.side
+					if len(d.Ops) > 2 && p.sideLarge != nil {
+						cfgs = p.sideLarge // thorough: all combinations, fewer configurations
+					}
+					if large && !p.sideAllLarge {
+						// thin slice: one protocol-kind resolver error, and each non-default presentation
+						if !(pr == "default" && ro == "error-validation") && !(pr != "default" && ro == "value") {
+							continue
+						}
+						cfgs = cfgs[:1]
+					}
+					for _, g := range cfgs {
+						f(Case{Doc: d, OpName: on, Carrier: cn, Accept: g.accept, RH: g.rh, Order: g.order, Resolver: ro, Present: pr})
+					}
+				}
 			}
 		}
 	}
@@ -361,6 +418,11 @@ func main() {
 					k++
 					judge(r, cs, bc, t, i, k)
 				})
+				sideCasesFor(docs[i], p, func(cs Case) {
+					k++
+					t.sideCases++
+					judge(r, cs, bc, t, i, k)
+				})
 				atomic.AddInt64(&done, 1)
 			}
 		}(w)
@@ -408,6 +470,7 @@ func main() {
 	c.Cov["by_carrier"] = total.byCarrier
 	c.Cov["responses_judged"] = total.responses
 	c.Cov["histories_by_shape"] = total.byHistory
+	c.Cov["server_side_cases"] = total.sideCases
 	c.Cov["disagreeing_cases_by_signature"] = sigCounts
 	c.Cov["bounds"] = map[string]any{
 		"operations_per_document":         fmt.Sprintf("1..%d", p.maxOps),
@@ -427,10 +490,13 @@ func main() {
 			fmt.Sprintf("executing carriers, documents with >%d operations", p.fullOps):      len(p.execLarge),
 			fmt.Sprintf("non-executing carriers, documents with <=%d operations", p.fullOps): len(p.otherSmall),
 			fmt.Sprintf("non-executing carriers, documents with >%d operations", p.fullOps):  len(p.otherLarge),
-			"APQ carriers": len(p.apq),
-			"histories":    len(p.hist),
-			fmt.Sprintf("odd carriers, documents with <=%d operations", p.fullOps): len(p.oddSmall),
-			fmt.Sprintf("odd carriers, documents with >%d operations", p.fullOps):  len(p.oddLarge),
+			"APQ carriers":             len(p.apq),
+			"histories":                len(p.hist),
+			"server-side combinations": len(p.side),
+			"server-side combinations, documents with 3 operations (thorough; 0 = n/a)": len(p.sideLarge),
+			"plain HEAD/OPTIONS/PUT (0 = the non-executing products)":                   len(p.inert),
+			fmt.Sprintf("odd carriers, documents with <=%d operations", p.fullOps):      len(p.oddSmall),
+			fmt.Sprintf("odd carriers, documents with >%d operations", p.fullOps):       len(p.oddLarge),
 		},
 		"history_shapes":                                  []string{"twice", "other-carrier-first", "valid-then-invalid-sibling", "invalid-sibling-then-valid"},
 		"history_carriers":                                histCarriers,
@@ -444,6 +510,7 @@ func main() {
 		"media type rules the statement leaves open are taken from gqlgen's documented conventions: absent Accept -> application/json; first usable Accept range wins; */* and application/* -> application/graphql-response+json; nothing usable -> application/graphql-response+json; urlencoded, application/graphql and multipart transports answer application/json unless a Content-Type is configured; parse/validation failure is 422 for application/json and 400 for application/graphql-response+json",
 		"q-weights and parameters inside Accept are outside the alphabet; the status of requests that name no (existing) operation, of broken query strings and of unsupported methods is not asserted",
 		"over GET (and HEAD/PUT/DELETE/PATCH) a request body names nothing, whatever Content-Type announces it: the GraphQL parameters of a GET are those of its URL (GraphQL over HTTP); so a GET with a body and an empty query string must run no resolver, and a GET with URL parameters is judged on those alone",
+		"resolvers always yield their value; a non-'value' resolver outcome additionally reports an error through graphql.AddError (data and errors in one response); the strip-extensions presenter answers a copy of the error, never mutating the list a transport holds",
 		"subscriptions are scripted to emit one event, so a subscription executed over POST yields one data payload",
 		"gqlparser's parser and validator decide parse/validation failures inside gqlgen; the reference classifies documents by construction (injected fault, lone-anonymous rule)",
 	}
@@ -478,6 +545,7 @@ func sampleCases() []Case {
 		{Doc: two, OpName: OpNameChoice{true, "A"}, Carrier: "GET-apq", Accept: "*/*", RH: "custom", Order: "default"},
 		{Doc: DocSpec{Ops: []OpSpec{{"query", "short"}}, Fault: "parse"}, Carrier: "GET", Accept: "text/html, application/json", RH: "nil", Order: "default"},
 		{Doc: DocSpec{Ops: []OpSpec{{"subscription", "anon"}}}, Carrier: "GET", Accept: mtJSON, RH: "ct-gr", Order: "default"},
+		{Doc: DocSpec{Ops: []OpSpec{{"query", "named"}}}, Carrier: "POST", Accept: mtGR, RH: "nil", Order: "default", Resolver: "error-validation", Present: "default"},
 		{Doc: DocSpec{Ops: []OpSpec{{"mutation", "named"}}, Fault: "unknown-field"}, Carrier: "POST", Accept: "", RH: "nil", Order: "default",
 			History: "other-carrier-first", Before: []Step{{Doc: DocSpec{Ops: []OpSpec{{"mutation", "named"}}, Fault: "unknown-field"}, Carrier: "GET"}}},
 		{Doc: DocSpec{Ops: []OpSpec{{"query", "named"}, {"query", "named"}, {"mutation", "named"}}, Fault: "unknown-field", FaultAt: 2},
